@@ -1,16 +1,41 @@
-(* C02 — placement of messages by (task_uuid, task_level), for ARBITRARY
+(* C02 -- placement of messages by (task_uuid, task_level), for ARBITRARY
    sequences of API operations (every interleaving of threads / coroutines at
    API-call granularity is one [list (nat * op)]).
 
-   Main results (section "theorems" at the end of the file):
-     C02_unique          no two messages offered to the observed destination share
-                         (task_uuid, task_level)
-     C02_emission_order  under one owner (uuid, level prefix) the positions appear
-                         in the trace in strictly increasing order
-     C02_placed          every message carries a uuid and a non-empty level handed
-                         out by a heap action (or is message [1] of a fresh uuid)
-   for every op list satisfying [disciplined] (a decidable predicate checked on
-   the states the list runs through). *)
+   Setting: [final cfg c0 ds ops] = the run of [(c0, OAddDests ds) :: ops] from
+   [init_state]; the observed destination is the one registered under id [i] by that
+   first add_destinations ([observed i ds]); what it is OFFERED is judged (so it may
+   even fail itself), whatever the other destinations do.
+
+   Results
+     under [disciplined i cfg ops (registered ds) = true]   (section 6)
+       C02_unique           no two messages share (task_uuid, task_level)
+       C02_emission_order   under one owner (uuid, level prefix) positions appear in
+                            the trace in strictly increasing order
+       C02_placed           every message has a uuid and a non-empty level handed out
+                            by the action object owning that prefix (k <= _last_child),
+                            or is message [1] of a uuid no action has
+       C02_child_extends, C02_distinct_owners, C02_exclusive
+     under the stronger [disciplined2 i cfg ops (registered ds) = true]   (section 9)
+       C02_contiguous       per action object the used positions (messages, child /
+                            continued actions, serialized ids) are exactly
+                            1.._last_child, start message at 1, once finished the end
+                            message at the last position
+     programs
+       C02_compile_disciplined   fst (compile c p) is [disciplined] for every
+                            syntactically well-formed program (wf_prog, NoDup handles)
+       C02_unique_program   hence uniqueness for all such programs
+     limits of the statements (vm_compute witnesses)
+       Refute.C02_unscoped_refuted       finish() while current + failing destination:
+                            end message not last (DESIGN F6) -- needs disciplined2
+       Buffered.C02_buffered_replay_refuted   messages buffered before the first
+                            add_destinations, replayed while a destination fails:
+                            emission order <> level order (also on /repo)
+
+   Structure: 1 fields; 2 invariant PI on (heap, next_uuid, ids, trace); 3 pio;
+   4 live handles HI; 5 state invariant Inv and the send chain; 6 discipline,
+   api_step; 7 theorems; 8 example; 9 contiguity invariant CI/CInv, discipline2;
+   10 theorem 2; 11 compiled programs. *)
 From Coq Require Import List PArith NArith ZArith Bool Arith Lia.
 Require Import Eliot.Base.Level Eliot.Model.Core Eliot.Model.Prog Eliot.Proofs.CoreBasics.
 Import ListNotations.
